@@ -12,7 +12,7 @@ fn run_case(input: &Sx) -> String {
     let mut state: St = State::new();
     let mut outs = vec![];
     for op in ops {
-        outs.push(exec_rop(&mut state, op));
+        exec_stmt(&mut state, op, &mut outs);
     }
     tagged("outs", outs)
 }
@@ -32,6 +32,8 @@ fn alphabet(keys: &[u64], vals: &[u64], full: bool) -> Vec<String> {
         v.push(format!("(occ-rem {k})"));
         v.push(format!("(vac-ins {k} {x})"));
         v.push(format!("(parget 1 {k})"));
+        v.push(format!("(gset {k} {x})"));
+        v.push(format!("(gget {k})"));
         if full {
             v.push(format!("(take {k})"));
             v.push(format!("(hastop {k})"));
@@ -53,6 +55,16 @@ fn alphabet(keys: &[u64], vals: &[u64], full: bool) -> Vec<String> {
         }
     }
     v.push("(multi (0 1) 1)".into());
+    // with_inner_state: small bodies x ok/err, nesting depth <= 2
+    for ok in ["ok", "err"] {
+        v.push(format!("(inner {ok})"));
+        v.push(format!("(inner {ok} (ins 0 8) (set 1 9))"));
+        v.push(format!("(inner {ok} (rem 0) (ins 1 8) (inner err (ins 0 7) (gset 0 6)) (tryget 0))"));
+        if full {
+            v.push(format!("(inner {ok} (set 0 9) (inner ok (ins 1 7) (rem 0)) (tryget 1))"));
+            v.push(format!("(inner {ok} (ins 0 8) (gset 0 9) (gget 1) (occ-rem 0))"));
+        }
+    }
     if full {
         v.push("(multi (1 0) 2)".into());
         v.push("(multi (0 0) 1)".into());
@@ -109,8 +121,25 @@ impl Gen {
             91..=92 => format!("(parins {} {k} {v})", self.rng.below(3)),
             93..=96 => format!("(multi {} {})", self.tuple(), self.rng.range(1, 3)),
             97 => format!("(req {k})"),
+            98 => if self.rng.chance(1, 2) { format!("(gset {k} {v})") } else { format!("(gget {k})") },
             _ => "(dump)".into(),
         }
+    }
+    /// `with_inner_state` with a random body (no raw push/pop inside), ok or err, nesting <= 2
+    fn inner(&mut self, depth: u64) -> String {
+        let ok = if self.rng.chance(1, 2) { "ok" } else { "err" };
+        let n = self.rng.below(5);
+        let mut body = vec![];
+        for _ in 0..n {
+            if depth < 2 && self.rng.chance(1, 4) { body.push(self.inner(depth + 1)); continue; }
+            loop {
+                let o = self.op();
+                if o == "(push)" || o == "(pop)" || o.starts_with("(inner") { continue; }
+                body.push(o);
+                break;
+            }
+        }
+        format!("(inner {ok} {})", body.join(" "))
     }
     /// shadow → remove underneath → entry on shadowed → pop
     fn scenario(&mut self, ops: &mut Vec<String>) {
@@ -120,7 +149,9 @@ impl Gen {
         ops.push("(push)".into());
         if self.rng.chance(2, 3) { ops.push(format!("(ins {k} {c})")); }
         for _ in 0..self.rng.below(4) { ops.push(self.op()); }
-        match self.rng.below(5) {
+        match self.rng.below(7) {
+            5 => { ops.push(format!("(gset {k} {c})")); ops.push(format!("(gget {k})")); }
+            6 => ops.push(self.inner(1)),
             0 => ops.push(format!("(rem {k})")),
             1 => ops.push(format!("(ent-mod-orins {k} 1 {c})")),
             2 => ops.push(format!("(occ-rem {k})")),
@@ -167,7 +198,7 @@ fn main() {
     for (site, full, depth) in plans {
         let alpha = alphabet(&keys, &vals, full);
         for (pi, prefix) in prefixes.iter().enumerate() {
-            if depth >= 4 && (pi == 1 || pi == 3) { continue; }
+            if depth >= 4 && pi != 2 { continue; }
             let mut idx = vec![0usize; depth];
             loop {
                 let mut ops: Vec<String> = prefix.iter().map(|s| s.to_string()).collect();
@@ -186,7 +217,9 @@ fn main() {
         let len = g.rng.range(40, 120) as usize;
         let mut ops = vec![];
         while ops.len() < len {
-            if g.rng.chance(1, 6) { g.scenario(&mut ops); } else { ops.push(g.op()); }
+            if g.rng.chance(1, 6) { g.scenario(&mut ops); }
+            else if g.rng.chance(1, 12) { let s = g.inner(1); ops.push(s); }
+            else { ops.push(g.op()); }
         }
         emit("rand", ops);
     }
